@@ -553,11 +553,20 @@ def pickling(idx: ProgramIndex, rep: Report):
                             if is_dc and len(v2.args) < 2 and not v2.keywords:
                                 probs.append("members are deep-copied without the memo: objects the surrounding model also references are duplicated")
                             if not is_dc:
+                                guard_names = set()
                                 for t3, pos in _enclosing_pairs(l, a2):
                                     if pos:
-                                        shared |= {c3.value for c3 in ast.walk(t3) if isinstance(c3, ast.Constant) and isinstance(c3.value, str)}
-                                if not _enclosing_pairs(l, a2):
-                                    probs.append("every member is handed to the copy as it is: the copy shares its state with the original")
+                                        guard_names |= {c3.value for c3 in ast.walk(t3) if isinstance(c3, ast.Constant) and isinstance(c3.value, str)}
+                                loop_vars = {x.id for x in ast.walk(l.target) if isinstance(x, ast.Name)}
+                                if isinstance(v2, ast.Name) and v2.id in loop_vars:
+                                    shared |= guard_names
+                                    if not guard_names:
+                                        probs.append("every member is handed to the copy as it is: the copy shares its state with the original")
+                                else:
+                                    # a member re-initialised for the copy: only per-call state may start afresh
+                                    for nm in sorted(guard_names):
+                                        if nm not in ("_added_loss_terms", "_memoize_cache"):
+                                            probs.append("`%s` is re-initialised for the copy (`%s`) instead of being copied, and is not per-call state" % (nm, src(v2)[:40]))
                 known_caches = {a for c_, a, w in c03.attribute_caches(idx) if cls.is_subclass_of(c_)}
                 for nm in sorted(shared):
                     if nm not in known_caches and not nm.startswith("_cached"):
@@ -830,6 +839,25 @@ def copyable_caches(idx: ProgramIndex, rep: Report):
                 ("the memo is dropped on copy by %s" % guard) if guard else ("every memoised value is detached" if detached else
                 "memoises %s in self._memoize_cache (cleared only by the next training call, train() or load_state_dict) and neither the class nor an ancestor drops the memo in __deepcopy__/__getstate__: copy.deepcopy(model) between two calls raises 'Only Tensors created explicitly by the user support the deepcopy protocol'" % ", ".join(own_cached)), {})
     rep.floor("C18-9", "module classes introducing memoisation", n, 1)
+    # ... the same for added-loss terms: a module that stores a term computed from its parameters in a training-mode call
+    # (update_added_loss_term) keeps graph-carrying tensors in self._added_loss_terms until the next call
+    k = 0
+    for cls in sorted(idx.package_classes(), key=lambda c: (c.module.name, c.qualname)):
+        if not cls.is_subclass_of(gm):
+            continue
+        writers = sorted(m.name for m in cls.methods.values() if any(isinstance(c.func, ast.Attribute) and c.func.attr == "update_added_loss_term" and isinstance(c.func.value, ast.Name) and c.func.value.id == (m.params[0] if m.params else "") for c in calls_in(m.node)))
+        if not writers:
+            continue
+        k += 1
+        guard = None
+        for b in cls.repo_mro():
+            for hook in ("__deepcopy__", "__getstate__"):
+                if hook in b.methods and "_added_loss_terms" in src(b.methods[hook].node):
+                    guard = "%s.%s" % (b.name, hook)
+        rep.add("C18-9", "%s:%s[added loss term]" % (cls.module.name, cls.qualname), cls.where, guard is not None,
+                ("the stored term is dropped on copy by %s" % guard) if guard else
+                "%s stores an added-loss term built from the module's parameters in self._added_loss_terms (kept until the next call) and neither the class nor an ancestor drops it in __deepcopy__/__getstate__: copy.deepcopy of the model after any forward / training step raises 'Only Tensors created explicitly by the user support the deepcopy protocol'" % ", ".join(writers), {})
+    rep.floor("C18-9", "module classes storing added-loss terms", k, 2)
 
 
 # ---- C18-10 --------------------------------------------------------------------------------------------------------
